@@ -431,14 +431,23 @@ def _legacy_backend(ctx, model):
     mem = one("__hash__")
     ok = True
     saw_cached = saw_compute = False
+    plain_store = False
     for ps in summarize(mem.node, plain=True):
         if ps.term != "return":
             continue
         w = [e for e in ps.events if e.kind == "attrwrite" and e.arg == SELF]
+        osa = [e for e in ps.events if e.kind == "call"
+               and e.name == "object.__setattr__" and len(e.args) == 3
+               and e.args[0] == SELF and e.args[1] == ("const", "_hash_value")]
         if any(isinstance(v, tuple) and v[0] == "except" for _, _, v in ps.conds):
             saw_compute = True
-            ok = ok and len(w) == 1 and w[0].name == "_hash_value" and \
-                w[0].value[0] == "call" and w[0].value[1] == "self.get_hash"
+            if w:
+                plain_store = True
+                ok = ok and len(w) == 1 and w[0].name == "_hash_value" and \
+                    w[0].value[0] == "call" and w[0].value[1] == "self.get_hash"
+            else:
+                ok = ok and len(osa) == 1 and osa[0].args[2][0] == "call" and \
+                    osa[0].args[2][1] == "self.get_hash"
         else:
             saw_cached = True
             ok = ok and not [x for x in w if x.name != "_hash_value"] and \
@@ -447,6 +456,19 @@ def _legacy_backend(ctx, model):
            E.module.loc(mem.node),
            "Expression.__hash__: cached _hash_value, else get_hash()" if ok else
            "Expression.__hash__ does not cache get_hash() in _hash_value only")
+    # the legacy hash also serves decorated classes declared with hash=False,
+    # whose instances are frozen: its cache store must bypass __setattr__ the
+    # way the generated hash does
+    _, edc = model.func(f"{PRIM}:expr_dataclass")
+    can_disable = any(a.arg == "hash" for a in edc.args.args + edc.args.kwonlyargs)
+    ctx.ob("O/legacy/__hash__/cache-store-works-when-frozen",
+           not (plain_store and can_disable), E.module.loc(mem.node),
+           "the cache store of the inherited hash works on frozen instances"
+           if not (plain_store and can_disable) else
+           "Expression.__hash__ stores its cache with a plain attribute "
+           "assignment; a class declared with expr_dataclass(hash=False) inherits "
+           "it while its instances are frozen, so hash() -- and with it every == "
+           "between two distinct instances -- raises FrozenInstanceError")
     mem = one("__ne__")
     src = ast.unparse(mem.node.body[-1]).replace(" ", "")
     ctx.ob("S/legacy/__ne__", src == "returnnotself.__eq__(other)",
@@ -633,9 +655,18 @@ def _who_may_write(ctx, model):
                         own_post_init = (
                             name == "__post_init__" and tgt == "self"
                             and c.key in node_keys and nt.table[c.key].decorated)
-                        ok = q in ALLOWED_SETATTR_FUNCS or own_post_init or (
-                            not is_node and tgt == "self"
-                            and not model.is_subclass(c, mapper_base))
+                        # the hash cache is not a field: writing it (on self)
+                        # changes neither equality class nor hash
+                        cache_only = (
+                            tgt == "self" and len(call.args) >= 2 and isinstance(
+                                call.args[1], ast.Constant)
+                            and call.args[1].value == "_hash_value"
+                            and ast.unparse(call.func) in ("object.__setattr__",
+                                                           "setattr"))
+                        ok = q in ALLOWED_SETATTR_FUNCS or own_post_init or \
+                            cache_only or (
+                                not is_node and tgt == "self"
+                                and not model.is_subclass(c, mapper_base))
                         ctx.ob(f"O/setattr/{c.name}.{name}:{tgt}", ok,
                                m.loc(call),
                                f"allowed: {ALLOWED_SETATTR_FUNCS.get(q, 'own state of a non-node object')}"
